@@ -323,6 +323,49 @@ func c05(c *Ctx) {
 		}
 		r.Check(len(bad) == 0, "R5.5", key, pos, fmt.Sprintf("\"unixfs\" -> %s dispatching through %s (%d load-free entries)", core.FuncName(fl), lazyName, len(lazy)), strings.Join(bad, "; "))
 	}
+	// the registration works on a LinkSystem whose KnownReifiers map is still nil, and keeps what others registered: the
+	// map is created exactly on the nil edge of a test of that field
+	if regFn != nil {
+		var bad []string
+		made := 0
+		for _, b := range regFn.Blocks {
+			for _, ins := range b.Instrs {
+				st, ok := ins.(*ssa.Store)
+				if !ok {
+					continue
+				}
+				if _, isMake := st.Val.(*ssa.MakeMap); !isMake {
+					continue
+				}
+				_, fv, _ := core.FieldAddrOf(st.Addr)
+				if fv == nil || fv.Name() != "KnownReifiers" {
+					continue
+				}
+				made++
+				onNil := core.GuardedBy(b, func(cond ssa.Value) (bool, bool) {
+					x, trueMeansNil, ok := core.NilCmp(cond)
+					if !ok {
+						return false, false
+					}
+					u, isLoad := x.(*ssa.UnOp)
+					if !isLoad {
+						return false, false
+					}
+					if _, f2, _ := core.FieldAddrOf(u.X); f2 != fv {
+						return false, false
+					}
+					return trueMeansNil, true
+				})
+				if !onNil {
+					bad = append(bad, fmt.Sprintf("the map created at %s is not created on the nil edge of a test of KnownReifiers: a LinkSystem without the map panics on registration, one with a map loses its other reifiers", c.P.Pos(st.Pos())))
+				}
+			}
+		}
+		if made == 0 {
+			bad = append(bad, "KnownReifiers is written without being created when nil")
+		}
+		r.Check(len(bad) == 0, "R5.5", "registry:map-created-when-nil", c.P.Pos(regFn.Pos()), "the KnownReifiers map is created exactly when it is nil", strings.Join(bad, "; "))
+	}
 }
 
 // funcValueLookupTable: the called value is looked up in a package-level table.
